@@ -32,3 +32,6 @@ void *st_os_ret2(void *os, void *x) { return os; }
 void *st_print_os(void *f, void *os) { return os; }
 void *st_os_ret_u(void *os, uint32_t x) { return os; }
 void *st_os_ret_l(void *os, uint64_t x) { return os; }
+int n_timer_sched, n_timer_clear; uint32_t timer_sched_ms;
+uint8_t st_timer_schedule(void *timer, void *ev, uint32_t ms) { n_timer_sched++; timer_sched_ms = ms; return 1; }
+uint64_t st_timer_clear(void *timer) { n_timer_clear++; return 0; }
